@@ -102,7 +102,24 @@ def _violations(rc, o, batches):
     viol = []
     byid = {b['id']: b for b in batches}
     # 1. results that differ from the sequential ones (one violation: the first such call; the others summarised)
-    diff = [b for b in batches if b.get('mismatches')]
+    # process-level observations (working directory / environment of the process changed by library calls) have goroutine -1
+    # and get a class of their own, so that a concrete differing CALL is always reported when there is one
+    proc = [(b, m) for b in batches for m in (b.get('mismatches') or []) if m['goroutine'] < 0]
+    if proc:
+        b, m = proc[0]
+        inp = _params(b)
+        inp['observation'] = m['kind']
+        inp['n_batches'] = len(set(x['id'] for x, _ in proc))
+        inp['tasks'] = b.get('tasks')
+        viol.append({'klass': 'process-state-changed', 'case': {'id': b['id'], 'input': inp}, 'impl': m['concurrent'], 'expected': m['sequential'],
+                     'what': 'after a batch of concurrent independent calls the %s of the process is not what it was' % m['kind']})
+    diff = []
+    for b in batches:
+        cm = [m for m in (b.get('mismatches') or []) if m['goroutine'] >= 0]
+        if cm:
+            b2 = dict(b)
+            b2['mismatches'] = cm
+            diff.append(b2)
     if diff:
         b = diff[0]
         m = b['mismatches'][0]
@@ -277,6 +294,7 @@ def correspondence(ctx):
     #             every digest compared with crypto/sha* computed by the harness
     #   rejected  verifications whose step carries 2-4 links that must be rejected beside the honest ones
     #   loadkeys  every goroutine loads its own RSA-2048 / P-256 / P-384 / ed25519 key pairs many times
+    #   envcmd    16 goroutines x 20 InTotoRun calls (own directory, own names) whose command prints its environment and cwd
     q = ctx.tier == 'quick'
     side = [
         ('cwd', ('4,8', 1, '0', '0', 'cwd-relative') if q else ('4,8,16', 2, '0,4', '2', 'cwd-relative'), 5000, 200000, {}),
@@ -285,6 +303,8 @@ def correspondence(ctx):
         ('rejected', ('8', 1, '0', '0', 'verify-with-rejected-links') if q else ('8,16', 4, '0,2', '2', 'verify-with-rejected-links'), 11000, 600000, {}),
         ('loadkeys', ('8', 1, '0', '0', 'load-keys') if q else ('8,16', 3, '0', '2', 'load-keys'), 13000, 700000,
          {'C16_LOAD_ITER': '40' if q else '250'}),
+        ('envcmd', ('16', 1, '0', '0', 'run-env-observing-command') if q else ('16,32', 3, '0,4', '2', 'run-env-observing-command'), 15000, 800000,
+         {'C16_ENV_ROUNDS': '20'}),
     ]
     binp = ctx.go_build('c16', race=True)
     from concurrent.futures import ThreadPoolExecutor
@@ -296,6 +316,8 @@ def correspondence(ctx):
                 b['id'] += idoff
             for v in _violations(rcs_, os_, bs_):
                 v['case']['input']['verif_seed'] = ctx.seed + soff
+                if tag == 'envcmd':
+                    v['case']['input']['C16_ENV_ROUNDS'] = '20'
                 if tag == 'loadkeys':
                     v['case']['input']['C16_LOAD_ITER'] = '40' if q else '250'
                 viol.append(v)
@@ -328,7 +350,12 @@ def correspondence(ctx):
                  "certificate failing the step's constraints), thresholds met and not met. Mix load-keys (8 goroutines): each loads its own "
                  "RSA-2048, P-256, P-384 and ed25519 private and public PEM 40 times per call (thorough 250; > 5000 loads per batch and phase), "
                  "every load compared with the first one and the public half with the PEM/raw key produced by the harness. "
-                 "These five mixes run in processes of their own, side by side. "
+                 "Mix run-env-observing-command (16 goroutines x 20 rounds; thorough 16/32 x 3 x GOMAXPROCS {default,4}): InTotoRun with own run "
+                 "directory and own step names, the command prints its whole environment sorted, its working directory, writes to stderr "
+                 "and exits with 0-2; stdout/stderr/return value compared with the same call made sequentially (the environment is rendered "
+                 "as its differences from the environment of the harness process at start). After every concurrent phase os.Environ() and "
+                 "the working directory of the process must be what they were. "
+                 "These six mixes run in processes of their own, side by side. "
                  "non-trivial = at least 2 goroutines and 2 calls; distinct = distinct (mix, G, GOMAXPROCS, yield, seed)")
     calls, kinds, errs, trees = 0, {}, {}, {}
     for b in batches:
@@ -401,8 +428,9 @@ def replay(ctx, case):
     nproc, times = (10, 2) if inp.get('cold_start_process') else (1, 20)
     for k in range(nproc):
         renv = {'GORACE': GORACE}
-        if inp.get('C16_LOAD_ITER'):
-            renv['C16_LOAD_ITER'] = str(inp['C16_LOAD_ITER'])
+        for k in ('C16_LOAD_ITER', 'C16_ENV_ROUNDS'):
+            if inp.get(k):
+                renv[k] = str(inp[k])
         rc, o = ctx.run([binp, 'replay', p, str(times)], timeout=1200, env=renv)
         o = re.sub(r'C16-BATCH (begin|end)[^\n]*\n', '', o)
         print(o[-12000 // nproc:])
